@@ -1,6 +1,6 @@
 (** C05 — Vary: a stored variant is only served to requests that select it. Statements only. *)
 From Coq Require Import Sorting.Sorted Lia ZifyBool ZifyNat ZifyN.
-From KV Require Import Bytes RustInt Range CacheControl Cache CacheProofs Fixture RustStd Vary VaryProofs VaryWire VaryWireProofs.
+From KV Require Import Bytes RustInt Range CacheControl Cache CacheProofs Fixture CacheX CacheXProofs RustStd Vary VaryProofs VaryWire VaryWireProofs.
 Open Scope N_scope.
 
 Section C05.
@@ -22,8 +22,9 @@ Section C05.
       sorted for the comparator of [get], non-empty, built with the rules of its page, every stored response
       computed for a request of that page with exactly the stored transformed header list):
       the run completes without panic, the invariant holds afterwards, and every reply is
-      - a 304, or a stored response that was computed for a request with the *same path and an equal transformed
-        header list* (no handler invocation), or
+      - a stored response that was computed for a request with the *same path and an equal transformed header
+        list*, or the bare 304 that vouches for such a stored response (no handler invocation; since the repair
+        832d735 a 304 is sent only when the entry holds the request's own variant), or
       - the response computed now for this very request, labelled with its own transformed header list
         (exactly one handler invocation). *)
   Theorem vary_served_for_equal_tuple : forall ops c hs now,
@@ -128,7 +129,7 @@ Section C05.
   Proof. exact (phase2_ok hstate compute cache_on ims_on negotiate rules_of dbg). Qed.
 End C05.
 
-(** ---- connection with C03 ---- *)
+(** ---- connection with C03 / C04 ---- *)
 Section C05_C03.
   Variable hstate : Type.
   Variable compute : hstate -> request -> bool -> fat * hstate * list bytes.
@@ -140,20 +141,23 @@ Section C05_C03.
   Variable negotiate : request -> fat -> option (N * bytes).
   Variable rules_of : bytes -> list rule.
   Variable dbg : bool.
-  (** handlers set no [vary] header of their own (Model/Cache.v appends the cache's header, the code replaces) *)
+  (** handlers set no [vary] header of their own (Model/CacheX.v appends the cache's header, the code replaces) *)
   Hypothesis Hnovary : forall hs r ok, assoc (B "vary") (f_headers (fst (fst (compute hs r ok)))) = None.
 
-  (** the server with sorted variant vectors and binary search (Model/Vary.v) and the server of Model/Cache.v
-      (C03/C04: variants as an association list, first match), instantiated with
-      [vary_tuple := transformed values of the page's rules] and [vary_header := the header [get_header] builds],
-      produce the same observations for every history from related states; so every theorem of C03/C04 about
-      Model/Cache.v holds of the vector server *)
+  (** the server with sorted variant vectors and binary search (Model/Vary.v) and the server of Model/CacheX.v
+      (C03/C04's model of the merged code — all repairs on —: variants as an association list, first match),
+      instantiated with [vary_tuple := transformed values of the page's rules], [vary_header := the header [get_header]
+      builds], plain responses (no stream, no filler bytes), the default status filter, no internal override URI and
+      the default redirect in [clear_page], produce the same observations for every history from related states; so
+      every theorem of C03/C04 about Model/CacheX.v holds of the vector server *)
   Theorem vector_refines_assoc_list : forall ops cV c hs now,
     InvV hstate compute rules_of cV -> cache_rel rules_of cV c ->
     exists l,
       runV hstate compute cache_on ims_on parse_ims sanitize_ok prime negotiate rules_of dbg (cV, hs) now ops = Ok l /\
-      map fst l = run hstate compute cache_on ims_on parse_ims sanitize_ok prime negotiate
-                      (vary_tuple_of rules_of) (vary_header_of rules_of) (c, hs) now ops.
+      map (fun oc => obx_of (fst oc)) l
+      = runX hstate (computeX hstate compute) cache_on ims_on true true true true true true status_filter_drop parse_ims
+             sanitize_ok prime no_override (negotiateX negotiate) (vary_tupleX rules_of) (vary_headerX rules_of)
+             redirect_target (c, hs) now (map opx_of ops).
   Proof. exact (run_rel hstate compute cache_on ims_on parse_ims sanitize_ok prime negotiate rules_of dbg Hnovary). Qed.
 
   (** C03's handler contract with the vary tuple made concrete *)
@@ -164,23 +168,22 @@ Section C05_C03.
     vary_tuple_of rules_of r = vary_tuple_of rules_of r' -> rq_path r = rq_path r' ->
     (qm (cf r true) = true -> path_query r = path_query r') ->
     cf r true = cf r' true.
-  Hypothesis pref_uniform : forall r r', rq_path r = rq_path r' -> qm (cf r true) = qm (cf r' true).
   Hypothesis Herr : forall r, f_spref (cf r false) = SP_NONE.
 
   (** ... in particular C03's transparency: a handler whose response depends on the request only through
       method class, path, (query) and the *transformed* header values gets, from the caching server with
       vectors, exactly the replies the cache-less server gives — each client receives the response for its own
-      transformed values, for every history *)
+      transformed values, for every history.  (Since the repair 92a9cd2 — a query-dependent variant does not join an
+      entry keyed by the path alone — without the earlier premise that query-dependence is uniform per path.) *)
   Theorem vary_cache_transparent : forall ops hs hsU now,
     Forall (op_no_ims ims_on prime) ops ->
-    exists l,
+    exists l lU,
       runV hstate compute true ims_on parse_ims sanitize_ok prime negotiate rules_of dbg ([], hs) now ops = Ok l /\
-      Forall2 obs_equiv (map fst l)
-        (run hstate compute false ims_on parse_ims sanitize_ok prime negotiate (vary_tuple_of rules_of) (vary_header_of rules_of)
-             ([], hsU) now ops).
+      runV hstate compute false ims_on parse_ims sanitize_ok prime negotiate rules_of dbg ([], hsU) now ops = Ok lU /\
+      Forall2 obs_equiv (map fst l) (map fst lU).
   Proof.
     exact (vary_transparent hstate compute ims_on parse_ims sanitize_ok prime negotiate rules_of dbg Hnovary
-             cf Hpure contract pref_uniform Herr).
+             cf Hpure contract Herr).
   Qed.
 End C05_C03.
 
@@ -220,26 +223,46 @@ Section C05_wire.
                  end) ops l.
   Proof. exact (wire_vary_run hstate compute cache_on ims_on parse_ims sanitize_ok prime negotiate rules_of dbg package err416_body). Qed.
 
-  (** when [send] does not replace the response by the 416 page, the [vary] header on the wire is the one
+  (** when [send] does not replace the response by the 416 page (a 304 never is: repair 9ae9b1a; the range is
+      applied to the body [send] keeps: none after a 1xx / 204 / 304 head), the [vary] header on the wire is the one
       [handle_cache] set (repaired or not), and a non-empty body on the wire comes from a non-empty body *)
   Theorem send_keeps_vary : forall fixed r san rp w,
     (forall r' hs0, assoc (B "vary") (package r' hs0) = assoc (B "vary") hs0) ->
     send_v rules_of package err416_body fixed r san rp = Ok w ->
-    ~ (exists rg e, san = Some rg /\ apply_range true rg (rp_status rp) (rp_body rp) = Err e) ->
+    ~ (exists rg e, san = Some rg /\ (rp_status rp =? 304) = false /\
+                    apply_range true rg (rp_status rp) (send_body rp) = Err e) ->
     assoc (B "vary") (w_headers w) = assoc (B "vary") (rp_headers rp) /\ (w_body w <> [] -> rp_body rp <> []).
   Proof. exact (send_keeps_vary_lemma rules_of package err416_body). Qed.
 
-  (** ---- (7) If-Modified-Since: the 304 is decided on the date of the cache entry alone, before the variant
-      vector is looked at: an entry for the request's key, a request that passed sanitize, GET or HEAD, and a
-      date not older than the *entry's* creation minus one second — nothing about the request's own tuple ... ---- *)
-  Theorem not_modified_before_variant_lookup : forall c hs now r0 k e c1,
+  (** a 304 Not Modified goes out as it is — head only, its headers passed to the Package extensions — whatever the
+      [range] header of the request says (repair 9ae9b1a: before, the range was cut out of its empty body and the
+      client got the 416 page) *)
+  Theorem wire_not_modified_as_is : forall fixed r san rp,
+    rp_status rp = 304 ->
+    send_v rules_of package err416_body fixed r san rp
+    = Ok (mkW 304 (package r (rp_headers rp)) [] (rp_last_modified rp)).
+  Proof. exact (send_not_modified rules_of package err416_body). Qed.
+
+  (** ---- (7) If-Modified-Since.  Since the repair 832d735 the 304 needs both a fresh date for the cache entry — an
+      entry for the request's key, a request that passed sanitize, GET or HEAD, and a date not older than the
+      *entry's* creation minus one second — AND the variant the request selects in that entry: then it is sent
+      (nothing computed, the cache as the lookup left it); a request whose own transformed tuple is not in the
+      entry runs the handler exactly once and gets the response computed for itself ... ---- *)
+  Theorem not_modified_only_for_stored_variant : forall c hs now r0 k e c1,
+    InvV hstate compute rules_of c ->
     cache_on = true /\ ims_on = true /\ vlookup (prime r0) c now = ((k, Some e), c1) /\
     sanitize_ok r0 = true /\ get_or_head (rq_method (prime r0)) = true /\
     (exists v t, header (B "if-modified-since") (prime r0) = Some v /\ parse_ims v = Some t /\ ims_fresh t (ve_created e) = true) ->
-    serveV hstate compute cache_on ims_on parse_ims sanitize_ok prime negotiate rules_of dbg (c, hs) now r0
-    = Ok ((c1, hs), {| rp_status := 304; rp_headers := []; rp_body := []; rp_identity := []; rp_last_modified := ims_on;
-                       rp_from_cache := true |}, [], []).
-  Proof. exact (not_modified_before_lookup hstate compute cache_on ims_on parse_ims sanitize_ok prime negotiate rules_of dbg). Qed.
+    (forall p, vr_get_by_request (ve_var e) (prime r0) = Ok (Hit p) ->
+       serveV hstate compute cache_on ims_on parse_ims sanitize_ok prime negotiate rules_of dbg (c, hs) now r0
+       = Ok ((c1, hs), {| rp_status := 304; rp_headers := []; rp_body := []; rp_identity := []; rp_last_modified := ims_on;
+                          rp_from_cache := true |}, [], [])) /\
+    (forall pos hc, vr_get_by_request (ve_var e) (prime r0) = Ok (Miss pos hc) ->
+       exists st' rp lg,
+         serveV hstate compute cache_on ims_on parse_ims sanitize_ok prime negotiate rules_of dbg (c, hs) now r0
+         = Ok (st', rp, lg, [prime r0]) /\
+         own_reply hstate compute negotiate rules_of (prime r0) rp).
+  Proof. exact (not_modified_needs_variant hstate compute cache_on ims_on parse_ims sanitize_ok prime negotiate rules_of dbg). Qed.
 
   (** ... it is truthful towards every client whose copy came out of the entry it is decided on: a request
       with the same path and an equal transformed list selects, in that entry, the very variant the earlier
@@ -283,7 +306,11 @@ Section C05_wire.
   (** ... and this is how a client comes to hold a copy in that sense: it was served from the cache (dated with
       the entry's date), its response was computed and stored (dated with the time of the step = the new
       entry's date), or computed and pushed into the entry it missed in (dated with the old entry's date; the
-      entry that now holds the variant is dated with the time of the step) *)
+      entry that now holds the variant is dated with the time of the step) when the variant is admitted to the cache
+      like a new item (repairs 8fe98d4, 92a9cd2: handler preference, method, status filter, kvarn-cache-control,
+      size limit; a query-dependent response only into an entry keyed with the query); a variant that is not admitted
+      is served and the cache left as it was — the entry does not hold the client's tuple, so a later conditional
+      request for it is recomputed ([not_modified_only_for_stored_variant]) *)
   Theorem served_copy_is_held :
     (forall r c now k e c1 f,
        vlookup r c now = ((k, Some e), c1) -> vr_get_by_request (ve_var e) r = Ok (Hit (f, own_tuple rules_of r)) ->
@@ -297,8 +324,10 @@ Section C05_wire.
        pc_find k c = Some e -> vfresh e now = true -> ve_created e <= now ->
        vr_get_by_request (ve_var e) r = Ok (Miss position headers) ->
        vary_missing hstate compute cache_on ims_on negotiate rules_of dbg c hs now r ok k position headers = Ok (st', rp, lg, calls) ->
-       holds_copy rules_of (fst st') r (fst (fst (compute hs r ok))) (ve_created e) /\
-       rp = finishV negotiate r (fst (fst (compute hs r ok))) (own_tuple rules_of r) ims_on true).
+       rp = finishV negotiate r (fst (fst (compute hs r ok))) (own_tuple rules_of r) ims_on true /\
+       (if variant_accepted cache_on k r (fst (fst (compute hs r ok)))
+        then holds_copy rules_of (fst st') r (fst (fst (compute hs r ok))) (ve_created e)
+        else fst st' = c)).
   Proof.
     exact (conj (hit_gives_copy hstate compute sanitize_ok prime negotiate rules_of dbg)
             (conj (stored_gives_copy hstate compute cache_on sanitize_ok prime negotiate rules_of dbg)
@@ -318,10 +347,20 @@ Theorem wire_416_without_vary_v0_refuted :
        w_body w <> [] /\ assoc (B "vary") (w_headers w) = None).
 Proof. exact (conj wire416_v0 send_v0_drops_vary). Qed.
 
-(** (7) "a 304 is only sent to a request whose own transformed tuple is stored" is false of the code (and of
-    the model): the second request's tuple was never computed — the dump shows the only stored variant *)
-Theorem not_modified_only_for_stored_variant_refuted : run_vary ims_history = ims_history_out.
-Proof. exact ims_unselected_variant. Qed.
+(** (7) before the repair 832d735 (model component vary.run_ims_v0; observed on the real code then) "a 304 is only
+    sent to a request whose own transformed tuple is stored" was false: the second request's tuple was never computed —
+    the dump shows the only stored variant —, and in general the old first half of [handle_cache] answered 304 on the
+    entry's date alone, before the variant vector was looked at.  The repaired code computes that variant. *)
+Theorem not_modified_only_for_stored_variant_v0_refuted :
+  (run_vary_ims_v0 ims_history = ims_history_out_v0 /\ run_vary ims_history = ims_history_out) /\
+  (forall hstate cache_on ims_on parse_ims sanitize_ok prime negotiate c (hs : hstate) now r0 k e c1,
+     cache_on = true /\ ims_on = true /\ vlookup (prime r0) c now = ((k, Some e), c1) /\
+     sanitize_ok r0 = true /\ get_or_head (rq_method (prime r0)) = true /\
+     (exists v t, header (B "if-modified-since") (prime r0) = Some v /\ parse_ims v = Some t /\ ims_fresh t (ve_created e) = true) ->
+     serveV_phase1_v0 hstate cache_on ims_on parse_ims sanitize_ok prime negotiate (c, hs) now r0
+     = Ok (inl ((c1, hs), {| rp_status := 304; rp_headers := []; rp_body := []; rp_identity := []; rp_last_modified := ims_on;
+                             rp_from_cache := true |}, [], []))).
+Proof. exact (conj ims_unselected_variant_v0 not_modified_before_lookup_v0). Qed.
 
 (** (6) before the repair (model component vary.run_v0): the stale position makes [Vec::insert] panic
     when the entry was replaced by a shorter one, and breaks the order otherwise — after which a cached
@@ -419,10 +458,17 @@ Example ex_replaced :
              w_status w = 206 /\ w_body w = B "ag" /\
              assoc (B "vary") (w_headers w) = Some (B "accept-encoding, range, x-a, X-Up, x bad")).
 Proof.
-  split; [exists (Some (100, 201)), E_RANGE; split; reflexivity|].
-  split; [intros (rg & e & Heq & A); inversion Heq; subst; vm_compute in A; discriminate|].
+  split; [exists (Some (100, 201)), E_RANGE; split; [reflexivity | split; reflexivity]|].
+  split; [intros (rg & e & Heq & _ & A); inversion Heq; subst; vm_compute in A; discriminate|].
   split; eexists; (split; [vm_compute; reflexivity|]); repeat split; vm_compute; reflexivity.
 Qed.
+
+(** a 304 with a range that would start after its (empty) body: sent as it is *)
+Example ex_not_modified_range :
+  send_v (fun _ => ex_rules) (fun _ hs => hs) (B "ERR") true (ex_req []) (Some (Some (0, 2)))
+         {| rp_status := 304; rp_headers := []; rp_body := []; rp_identity := []; rp_last_modified := true; rp_from_cache := true |}
+  = Ok (mkW 304 [] [] true).
+Proof. reflexivity. Qed.
 
 (** a cache with one entry holding one variant of /v, computed by [ex_compute] for the request without headers *)
 Definition ex_cache : vcache :=
@@ -435,7 +481,8 @@ Proof.
   split; [repeat constructor|]. split; [discriminate|]. split; [reflexivity|].
   intros f hc [Eq | []]. inversion Eq; subst. exists (ex_req []). split; [exists 0, true; reflexivity|]. split; reflexivity.
 Qed.
-(** a request whose own tuple (x-a class "hi") is not stored meets the condition of the 304 ... *)
+(** a request whose own tuple (x-a class "hi") is not stored meets the date condition of the 304 (before the repair
+    it was answered 304; now it is computed: second clause of [not_modified_only_for_stored_variant]) ... *)
 Example ex_ims_hit :
   let r0 := ex_req [(B "if-modified-since", B "@T+100"); (B "x-a", B "zebra")] in
   ims_hit true true parse_ims_fix (fun _ => true) (fun r => r) ex_cache 500 r0 (KPath (B "/v"))
@@ -447,7 +494,8 @@ Proof.
   - repeat split; try reflexivity. exists (B "@T+100"), 100%Z. repeat split; vm_compute; reflexivity.
   - eexists; eexists. vm_compute. reflexivity.
 Qed.
-(** ... and one that selects the stored variant (x-a absent or not text: default "lo") is told the truth *)
+(** ... and one that selects the stored variant (x-a absent or not text: default "lo") is told the truth
+    (first clause) *)
 Example ex_same_entry :
   vr_get_by_request (mkVaried ex_rules [ (mkFat 200 [] (B "page") SP_FULL true, headers_for_request ex_rules (ex_req [])) ]) (ex_req [])
   = Ok (Hit (mkFat 200 [] (B "page") SP_FULL true, headers_for_request ex_rules (ex_req [])))
